@@ -288,6 +288,8 @@ def cmd_dev(args):
     auto = [x for x in g.rewrites if x.get("rule") == "R3-auto"]
     if auto:
         print("auto R3:", [(x["item"].split("::")[-1].strip(), x["expr"]) for x in auto])
+    if getattr(g, "havoc", None):
+        print("unspecified std functions (havoc):", g.havoc)
     for t in tool:
         print("TOOL ERROR:", t["msg"])
         print(t["rendered"])
